@@ -298,8 +298,19 @@ pub proof fn lemma_auto_fields_read(resp: Response, close: bool, x: Seq<u8>, fs:
     lemma_framing_read(resp, x, fs, rest);
     lemma_close_read(close, a3 + x, e3 + fs, rest);
     lemma_ct_read(resp, a2 + (a3 + x), e2 + (e3 + fs), rest);
-    assert(auto_fields(resp, close) + x =~= a1 + (a2 + (a3 + x)));
-    assert(e1 + (e2 + (e3 + fs)) =~= e1 + e2 + e3 + fs);
+    assert(auto_fields(resp, close) == a1 + a2 + a3);
+    lemma_assoc3(a1, a2, a3, x);
+    lemma_assoc3f(e1, e2, e3, fs);
+}
+pub proof fn lemma_assoc3(a: Seq<u8>, b: Seq<u8>, c: Seq<u8>, x: Seq<u8>)
+    ensures (a + b + c) + x == a + (b + (c + x))
+{
+    assert((a + b + c) + x =~= a + (b + (c + x)));
+}
+pub proof fn lemma_assoc3f(a: Seq<(Seq<u8>, Seq<u8>)>, b: Seq<(Seq<u8>, Seq<u8>)>, c: Seq<(Seq<u8>, Seq<u8>)>, x: Seq<(Seq<u8>, Seq<u8>)>)
+    ensures a + (b + (c + x)) == a + b + c + x
+{
+    assert(a + (b + (c + x)) =~= a + b + c + x);
 }
 // THEOREM (C06): the head of the one serialisation, followed by anything, is read back by an RFC 7230 reader as exactly
 // the status code, the automatic fields by their fixed rules (content-type iff a type is set, connection: close iff
@@ -375,33 +386,44 @@ pub open spec fn decode_chunked(s: Seq<u8>) -> Option<(Seq<u8>, Seq<u8>)> decrea
         } else { None }
     }
 }
+// (pure arithmetic, kept apart from the sequences)
+pub proof fn lemma_hex_digits(n: int)
+    requires 0 <= n < 65536
+    ensures ({ let (d3, d2, d1, d0) = (n / 4096 % 16, n / 256 % 16, n / 16 % 16, n % 16);
+        0 <= d3 < 16 && 0 <= d2 < 16 && 0 <= d1 < 16 && 0 <= d0 < 16 && ((d3 * 16 + d2) * 16 + d1) * 16 + d0 == n
+        && (n < 4096 ==> d3 == 0) && (n < 256 ==> d2 == 0) && (n < 16 ==> d1 == 0) })
+{}
+pub proof fn lemma_hexd(k: int)
+    requires 0 <= k < 16
+    ensures hex_digit_val(hexd(k)) == k, !is_cr_or_lf(hexd(k))
+{}
+pub proof fn lemma_hex_val_push(s: Seq<u8>, d: u8)
+    ensures hex_val(s.push(d)) == hex_val(s) * 16 + hex_digit_val(d)
+{
+    assert(s.push(d).drop_last() =~= s);
+}
 pub proof fn lemma_hex_min(n: int)
     requires 1 <= n < 65536
     ensures hex_min(n).len() >= 1, all_hex(hex_min(n)), no_crlf(hex_min(n)), hex_val(hex_min(n)) == n
 {
-    reveal_with_fuel(hex_val, 5);
-    let h = hex_min(n);
-    assert forall|k: int| 0 <= k < 16 implies hex_digit_val(#[trigger] hexd(k)) == k && !is_cr_or_lf(hexd(k)) by {}
+    lemma_hex_digits(n);
     let (d3, d2, d1, d0) = (n / 4096 % 16, n / 256 % 16, n / 16 % 16, n % 16);
-    assert(hex_digit_val(hexd(d3)) == d3 && hex_digit_val(hexd(d2)) == d2 && hex_digit_val(hexd(d1)) == d1 && hex_digit_val(hexd(d0)) == d0);
-    assert(!is_cr_or_lf(hexd(d3)) && !is_cr_or_lf(hexd(d2)) && !is_cr_or_lf(hexd(d1)) && !is_cr_or_lf(hexd(d0)));
+    lemma_hexd(d3); lemma_hexd(d2); lemma_hexd(d1); lemma_hexd(d0);
+    let e = Seq::<u8>::empty();
+    assert(hex_val(e) == 0);
+    lemma_hex_val_push(e, hexd(d0));
     if n >= 4096 {
-        assert(h.drop_last() =~= seq![hexd(d3), hexd(d2), hexd(d1)]);
-        assert(h.drop_last().drop_last() =~= seq![hexd(d3), hexd(d2)]);
-        assert(h.drop_last().drop_last().drop_last() =~= seq![hexd(d3)]);
-        assert(h.drop_last().drop_last().drop_last().drop_last() =~= Seq::<u8>::empty());
-        assert(((d3 * 16 + d2) * 16 + d1) * 16 + d0 == n);
+        lemma_hex_val_push(e, hexd(d3)); lemma_hex_val_push(e.push(hexd(d3)), hexd(d2)); lemma_hex_val_push(e.push(hexd(d3)).push(hexd(d2)), hexd(d1));
+        lemma_hex_val_push(e.push(hexd(d3)).push(hexd(d2)).push(hexd(d1)), hexd(d0));
+        assert(hex_min(n) =~= e.push(hexd(d3)).push(hexd(d2)).push(hexd(d1)).push(hexd(d0)));
     } else if n >= 256 {
-        assert(h.drop_last() =~= seq![hexd(d2), hexd(d1)]);
-        assert(h.drop_last().drop_last() =~= seq![hexd(d2)]);
-        assert(h.drop_last().drop_last().drop_last() =~= Seq::<u8>::empty());
-        assert((d2 * 16 + d1) * 16 + d0 == n);
+        lemma_hex_val_push(e, hexd(d2)); lemma_hex_val_push(e.push(hexd(d2)), hexd(d1)); lemma_hex_val_push(e.push(hexd(d2)).push(hexd(d1)), hexd(d0));
+        assert(hex_min(n) =~= e.push(hexd(d2)).push(hexd(d1)).push(hexd(d0)));
     } else if n >= 16 {
-        assert(h.drop_last() =~= seq![hexd(d1)]);
-        assert(h.drop_last().drop_last() =~= Seq::<u8>::empty());
-        assert(d1 * 16 + d0 == n);
+        lemma_hex_val_push(e, hexd(d1)); lemma_hex_val_push(e.push(hexd(d1)), hexd(d0));
+        assert(hex_min(n) =~= e.push(hexd(d1)).push(hexd(d0)));
     } else {
-        assert(h.drop_last() =~= Seq::<u8>::empty());
+        assert(hex_min(n) =~= e.push(hexd(d0)));
     }
 }
 pub proof fn lemma_enc_cons(ps: Seq<Seq<u8>>)
@@ -423,6 +445,39 @@ pub proof fn lemma_enc_cons(ps: Seq<Seq<u8>>)
         assert(cat(ps) =~= ps[0] + cat(ps.skip(1)));
     }
 }
+// the terminating chunk: `0 CRLF CRLF`, then whatever follows is left
+pub proof fn lemma_last_chunk(rest: Seq<u8>)
+    ensures decode_chunked(term() + rest) == Some((Seq::<u8>::empty(), rest))
+{
+    reveal_with_fuel(hex_val, 2);
+    let s = term() + rest;
+    let z = seq![48u8];
+    assert(s =~= z + crlf() + (crlf() + rest));
+    lemma_line(z, crlf() + rest);
+    assert(all_hex(z));
+    assert(z.drop_last() =~= Seq::<u8>::empty());
+    assert(hex_val(z) == 0);
+    let after = s.skip(3);
+    assert(after =~= crlf() + rest);
+    assert(after.skip(2) =~= rest);
+}
+// one data chunk in front of `more`
+pub proof fn lemma_one_chunk(d: Seq<u8>, more: Seq<u8>)
+    requires 1 <= d.len() <= 65528
+    ensures decode_chunked(chunk(d) + more) == (match decode_chunked(more) { Some((x, rest)) => Some((d + x, rest)), None => None })
+{
+    let n = d.len() as int;
+    lemma_hex_min(n);
+    let s = chunk(d) + more;
+    assert(s =~= hex_min(n) + crlf() + (d + crlf() + more));
+    lemma_line(hex_min(n), d + crlf() + more);
+    let i = hex_min(n).len() as int;
+    let after = s.skip(i + 2);
+    assert(after =~= d + crlf() + more);
+    assert(after[n] == 13u8 && after[n + 1] == 10u8);
+    assert(after.take(n) =~= d);
+    assert(after.skip(n + 2) =~= more);
+}
 // THEOREM (C06 / C07): a body of unknown length is framed so that an RFC 7230 chunked reader recovers exactly the bytes the
 // source delivered, piece after piece, stops at the terminating chunk and leaves what follows untouched
 pub proof fn thm_chunked_reads_back(ps: Seq<Seq<u8>>, rest: Seq<u8>)
@@ -430,40 +485,19 @@ pub proof fn thm_chunked_reads_back(ps: Seq<Seq<u8>>, rest: Seq<u8>)
     ensures c06(c07(decode_chunked(enc(ps) + term() + rest) == Some((cat(ps), rest))))
     decreases ps.len()
 {
-    reveal_with_fuel(hex_val, 2);
     if ps.len() == 0 {
-        let s = enc(ps) + term() + rest;
-        let z = seq![48u8];
-        assert(s =~= z + crlf() + (crlf() + rest));
-        lemma_line(z, crlf() + rest);
-        assert(all_hex(z));
-        assert(z.drop_last() =~= Seq::<u8>::empty());
-        assert(hex_val(z) == 0);
-        let after = s.skip(3);
-        assert(after =~= crlf() + rest);
-        assert(after.skip(2) =~= rest);
+        lemma_last_chunk(rest);
+        assert(enc(ps) + term() + rest =~= term() + rest);
         assert(cat(ps) =~= Seq::<u8>::empty());
     } else {
         lemma_enc_cons(ps);
-        let d = ps[0];
-        let n = d.len() as int;
-        assert(1 <= n <= 65528);
-        lemma_hex_min(n);
         let more = enc(ps.skip(1)) + term() + rest;
-        let s = enc(ps) + term() + rest;
-        assert(s =~= hex_min(n) + crlf() + (d + crlf() + more));
-        lemma_line(hex_min(n), d + crlf() + more);
-        let i = hex_min(n).len() as int;
-        let after = s.skip(i + 2);
-        assert(after =~= d + crlf() + more);
-        assert(after[n] == 13u8 && after[n + 1] == 10u8);
-        assert(after.take(n) =~= d);
-        assert(after.skip(n + 2) =~= more);
+        assert(enc(ps) + term() + rest =~= chunk(ps[0]) + more);
+        lemma_one_chunk(ps[0], more);
         assert(pieces_ok(ps.skip(1))) by { assert forall|k: int| 0 <= k < ps.skip(1).len() implies 1 <= (#[trigger] ps.skip(1)[k]).len() <= 65528 by { assert(ps.skip(1)[k] == ps[k + 1]); } }
         thm_chunked_reads_back(ps.skip(1), rest);
     }
 }
-
 // the same for a response body of unknown length whose source ran to its end
 pub proof fn thm_unknown_length_body_reads_back(b: ResponseBody, rest: Seq<u8>)
     requires blen(b) is None, body_events(b).last() is Eof, pieces_ok(pieces(body_events(b)))
